@@ -196,6 +196,110 @@ def run_sun_latitude_zeros(spec, ctx):
     ctx.sample({"year": y, "eighth": q, "crossings": found})
 
 
+# -- instants at which an internal quantity of the apparent / precessed position takes a special value ---------------
+
+def check_apparent_minus_geometric(j):
+    """Apparent minus geometric longitude of the Sun = nutation in longitude - 20.4898''/R (and without nutation)."""
+    e = Epoch(j)
+    try:
+        gl, gb, gr = Sun.geometric_geocentric_position(e)
+        al, ab, ar = Sun.apparent_geocentric_position(e)
+        nl, nb, nr = Sun.apparent_geocentric_position(e, nutation=False)
+        dpsi = nutation_longitude(e)._deg * 3600.0
+    except Exception as ex:
+        return [("exception", "apparent / geometric position at JDE %r raised %r" % (j, ex), None)]
+    out = []
+    ab_ = -20.4898 / gr
+    d1 = ((al._deg - gl._deg + 180.0) % 360.0 - 180.0) * 3600.0
+    d2 = ((nl._deg - gl._deg + 180.0) % 360.0 - 180.0) * 3600.0
+    if abs(d1 - (dpsi + ab_)) > 0.01 or abs(d2 - ab_) > 0.01 or ar != gr:
+        out.append(("apparent_minus_geometric", "apparent - geometric longitude of the Sun = %r arcsec (%r without nutation), "
+                    "nutation + aberration = %r (%r) at JDE %r, R = %r" % (d1, d2, dpsi + ab_, ab_, j, gr),
+                    max(abs(d1 - (dpsi + ab_)), abs(d2 - ab_))))
+    return out
+
+
+def check_earth_j2000(j, limit=600.0):
+    """(limit in arcseconds: the J2000 series carries the typos of finding C08-a, up to 143 arcsec; a quadrant error
+    of the precession is 180 degrees)"""
+    e = Epoch(j)
+    try:
+        L, B, R = Earth.geometric_heliocentric_position(e, tofk5=False)
+        Lj, Bj, Rj = Earth.geometric_heliocentric_position_j2000(e, tofk5=False)
+        l2, b2 = precession_ecliptical(e, Epoch(J2000), L, B)
+    except Exception as ex:
+        return [("exception", "Earth J2000 position at JDE %r raised %r" % (j, ex), None)]
+    d = S.sep_ll(l2._deg, b2._deg, Lj._deg, Bj._deg) * 3600.0
+    if d > limit:
+        return [("earth_j2000", "Earth J2000 series is %.2f arcsec from the of-date position precessed to J2000, at JDE %r"
+                 % (d, j), d)]
+    return []
+
+
+def _bisect_sign(f, lo, hi):
+    slo = f(lo) > 0.0
+    while True:
+        mid = lo + (hi - lo) / 2.0
+        if mid <= lo or mid >= hi:
+            return lo, hi
+        if (f(mid) > 0.0) == slo:
+            lo = mid
+        else:
+            hi = mid
+
+
+def run_special_instants(y, ctx):
+    """Year y: (a) the two instants at which the Earth's radius vector passes 1 AU exactly, (b) the two at which the
+    Earth's of-date longitude is 90 degrees from the node of the ecliptic of date on the J2000 ecliptic (where the
+    arctangent of the ecliptical precession has a vanishing denominator) - each narrowed to adjacent doubles."""
+    from ..ref import precession as PR
+    j0 = J2000 + (y - 2000.0) * 365.25
+
+    def f_r(t):
+        return Earth.geometric_heliocentric_position(Epoch(t), tofk5=False)[2] - 1.0
+
+    def f_q(t):
+        T = (t - J2000) / 36525.0
+        eta, pi_, p = PR.ecliptical_angles(T, -T)
+        L = Earth.geometric_heliocentric_position(Epoch(t), tofk5=False)[0]._deg
+        return math.cos(math.radians(pi_ - L))
+    found = 0
+    for name, f, step in (("R = 1 AU", f_r, 5.0), ("longitude 90 deg from the node", f_q, 5.0)):
+        t, prev = j0, f(j0)
+        while t < j0 + 366.0:
+            t2 = t + step
+            cur = f(t2)
+            ctx.evals += 1
+            if (prev > 0.0) != (cur > 0.0):
+                lo, hi = _bisect_sign(f, t, t2)
+                found += 1
+                for x in (lo, hi, hi + 10.0 / 86400.0, lo - 10.0 / 86400.0, hi + 25.0 / 86400.0, lo - 25.0 / 86400.0,
+                          math.nextafter(hi, math.inf), math.nextafter(lo, -math.inf)):
+                    ctx.evals += 1
+                    ctx.nt_count += 1
+                    res = check_apparent_minus_geometric(x) + check_reflection(x)
+                    if 1800 <= y <= 2199:
+                        res += check_coarse(x)
+                    res += check_earth_j2000(x)
+                    for r_ in res:
+                        ctx.viol({"jde": x, "what": name}, r_[1], dev=r_[2], site="special_" + r_[0])
+            t, prev = t2, cur
+    ctx.count("special_instants", found)
+    ctx.outcome((y, found))
+    ctx.obs(y, found)
+    ctx.sample({"jde": j0, "what": "sample"})
+
+
+def replay_special(case):
+    j = case["jde"]
+    res = check_apparent_minus_geometric(j) + check_reflection(j)
+    y = 2000.0 + (j - J2000) / 365.25
+    if 1800 <= y <= 2199:
+        res += check_coarse(j)
+    res += check_earth_j2000(j)
+    return [r_[1] for r_ in res]
+
+
 def check_frames(j):
     out = check_mean_equinox(j)
     e = Epoch(j)
@@ -220,7 +324,9 @@ def check_frames(j):
         tj = J2000 + 36525.0 * off
         variants.append(("equinox", tj, (lambda tj=tj: Sun.rectangular_coordinates_equinox(e, Epoch(tj)))))
     variants.append(("equinox_of_date", j, lambda: Sun.rectangular_coordinates_equinox(e, Epoch(j))))
-    for dd in (36.525, -36.525):       # both sides of the special value 'equinox = date'
+    # both sides of the special value 'equinox = date': a year's tenth, and 3 / 47 minutes (where a 'same instant'
+    # shortcut with a loose threshold would still fire)
+    for dd in (36.525, -36.525, 3.0 / 1440.0, -47.0 / 1440.0):
         tj = j + dd
         variants.append(("equinox", tj, (lambda tj=tj: Sun.rectangular_coordinates_equinox(e, Epoch(tj)))))
     got = {}
@@ -536,6 +642,8 @@ def clauses(tier):
                lambda c: [m for _, m, _ in check_reflection(c["jde"]) + check_obliquity(c["jde"])], floor=100),
         Clause("frames", chunks(frames, 32), run_frames, lambda c: [r_[1] for r_ in check_frames(c["jde"])],
                floor=100),
+        Clause("special_instants", [-1500, 100, 1850, 1983, 1992, 2000, 2007, 2019, 2024, 2150, 3500], run_special_instants,
+               replay_special, floor=150),
         Clause("sun_latitude_zeros", sun_latitude_zero_cases(tier), run_sun_latitude_zeros,
                lambda c: [m for _, m, _ in check_mean_equinox(c["jde"])], floor=300),
         Clause("call_pairs", chunks(call_pair_cases(), 24), run_call_pairs,
